@@ -1,4 +1,5 @@
 import FalconModel.PeekProofs
+import FalconModel.ReaderExtra
 /-! C14: prime-free names for the three theorems about `_read` / `_read_until` whose original names contain `'`
     (`read'_refines`, `read'_pos_le`, `read'_from_buffer`, `readUntil'_refines`): the harness audits theorems with
     `#print axioms <name>` and parses the name out of the reply with a pattern that stops at a prime. The statements are
@@ -33,4 +34,195 @@ theorem readUntilCore_refines (r : R σ) (d : Bytes) (size : Int) (hinv : Inv r)
       abs r' = (abs r).drop (stopAt d (abs r) size.toNat) ∧ Inv r' ∧ r'.pos ≤ r'.len ∧ r'.chunk = r.chunk :=
   readUntil'_refines r d size hinv hpl hs hd hdc
 
+end Rd
+
+/-! ## The public wrappers: `read(size)`, `pipe()`, `exhaust()`, `read_until(d, size)` below the join limit -/
+namespace Rd
+variable {σ : Type} [Source σ] [LawfulSource σ]
+
+/-- what is still to come is never longer than the budget the reader itself computes (`_normalize_size(None)`) -/
+theorem abs_length_le (r : R σ) (hinv : Inv r) (hpl : r.pos ≤ r.len) :
+    ((abs r).length : Int) ≤ r.rem + r.len - r.pos := by
+  rw [abs_eq r hinv hpl, List.length_append, List.length_drop]
+  have h1 := hinv.len_eq
+  have h2 := hinv.pos_nonneg
+  have h3 := hinv.rem_nonneg
+  have h4 : (avail r).length ≤ r.rem.toNat := by unfold avail; rw [List.length_take]; omega
+  omega
+
+/-- the number of bytes a `size` argument stands for on the text `A` still to come -/
+def want (A : Bytes) : Option Int → Nat
+  | none => A.length
+  | some s => if s = -1 then A.length else s.toNat
+
+theorem take_normalize (r : R σ) (size : Option Int) (hinv : Inv r) (hpl : r.pos ≤ r.len)
+    (hs : ∀ s, size = some s → s = -1 ∨ 0 ≤ s) :
+    0 ≤ normalizeSize r size ∧ (abs r).take (normalizeSize r size).toNat = (abs r).take (want (abs r) size) ∧
+    (abs r).drop (normalizeSize r size).toNat = (abs r).drop (want (abs r) size) := by
+  have hl := abs_length_le r hinv hpl
+  have hnn : (0 : Int) ≤ r.rem + r.len - r.pos := by have := hinv.rem_nonneg; omega
+  have big : ∀ n : Nat, (abs r).length ≤ n → (abs r).take n = (abs r).take (abs r).length ∧ (abs r).drop n = (abs r).drop (abs r).length := by
+    intro n hn
+    rw [List.take_of_length_le hn, List.take_of_length_le (Nat.le_refl _), List.drop_of_length_le hn, List.drop_of_length_le (Nat.le_refl _)]
+    exact ⟨rfl, rfl⟩
+  unfold normalizeSize want
+  cases size with
+  | none =>
+    simp only
+    refine ⟨hnn, ?_⟩
+    exact big _ (by omega)
+  | some s =>
+    simp only
+    by_cases h1 : s = -1
+    · simp only [h1, beq_self_eq_true, Bool.true_or, if_true]
+      exact ⟨hnn, big _ (by omega)⟩
+    · have hs0 : 0 ≤ s := by rcases hs s rfl with h | h; exact absurd h h1; exact h
+      have hb : (s == -1) = false := by simp [h1]
+      simp only [hb, Bool.false_or, h1, if_false]
+      by_cases h2 : s > r.rem + r.len - r.pos
+      · simp only [h2, decide_true, if_true]
+        refine ⟨hnn, ?_⟩
+        have a := big (r.rem + r.len - r.pos).toNat (by omega)
+        have b := big s.toNat (by omega)
+        exact ⟨a.1.trans b.1.symm, a.2.trans b.2.symm⟩
+      · simp only [h2, decide_false]
+        exact ⟨hs0, rfl, rfl⟩
+
+theorem performRead_chunk (r : R σ) (size : Int) (h0 : 0 ≤ r.rem) : (performRead r size).2.chunk = r.chunk :=
+  (performRead_spec r size _ _ h0 rfl).2.2.2.2.2.2.1
+
+/-- `_read` never changes the chunk size -/
+theorem readCore_chunk (r : R σ) (size : Int) (hinv : Inv r) : (read' r size).2.chunk = r.chunk := by
+  have h0 := hinv.rem_nonneg
+  unfold read'
+  split
+  · split <;> rfl
+  · split
+    · exact performRead_chunk r size h0
+    · simp only []
+      split
+      · have := performRead_chunk { r with len := 0, pos := 0, buf := [] } (size - (r.len - r.pos)) h0
+        rcases h : performRead { r with len := 0, pos := 0, buf := [] } (size - (r.len - r.pos)) with ⟨d, r2⟩
+        rw [h] at this; simpa using this
+      · have := performRead_chunk r r.chunk h0
+        rcases h : performRead r r.chunk with ⟨d, r2⟩
+        rw [h] at this; simpa using this
+
+/-- **`read(size)`** (size `None`, `-1` or ≥ 0) returns the next `size` bytes / everything, and leaves exactly the rest -/
+theorem read_refines (r : R σ) (size : Option Int) (hinv : Inv r) (hpl : r.pos ≤ r.len)
+    (hs : ∀ s, size = some s → s = -1 ∨ 0 ≤ s) :
+    (read r size).1 = (abs r).take (want (abs r) size) ∧ abs (read r size).2 = (abs r).drop (want (abs r) size) ∧
+    Inv (read r size).2 ∧ (read r size).2.pos ≤ (read r size).2.len ∧ (read r size).2.chunk = r.chunk := by
+  obtain ⟨h0, ht, hd⟩ := take_normalize r size hinv hpl hs
+  unfold read
+  obtain ⟨a, b, c⟩ := read'_refines r (normalizeSize r size) _ _ hinv hpl h0 rfl
+  exact ⟨a.trans ht, b.trans hd, c, read'_pos_le r _ hinv hpl h0, readCore_chunk r _ hinv⟩
+
+/-- the `while True` loop of `pipe`: hands out everything that is still to come, in order, and leaves nothing -/
+theorem pipeLoop_refines : ∀ (fuel : Nat) (r : R σ) (acc : Bytes), Inv r → r.pos ≤ r.len → (abs r).length < fuel →
+    (pipeLoop fuel r acc).1 = acc ++ abs r ∧ abs (pipeLoop fuel r acc).2 = [] ∧ Inv (pipeLoop fuel r acc).2 ∧
+    (pipeLoop fuel r acc).2.pos ≤ (pipeLoop fuel r acc).2.len ∧ (pipeLoop fuel r acc).2.chunk = r.chunk := by
+  intro fuel
+  induction fuel with
+  | zero => intro r acc _ _ h; omega
+  | succ n ih =>
+    intro r acc hinv hpl hlt
+    have hc := hinv.chunk_pos
+    obtain ⟨e1, e2, e3, e4, e5⟩ := read_refines r (some r.chunk) hinv hpl (fun s h => by cases h; right; omega)
+    have hw : want (abs r) (some r.chunk) = r.chunk.toNat := by
+      unfold want; have : r.chunk ≠ -1 := by omega
+      simp [this]
+    rw [hw] at e1 e2
+    unfold pipeLoop
+    rcases hrd : read r (some r.chunk) with ⟨c, r1⟩
+    rw [hrd] at e1 e2 e3 e4 e5
+    simp only at e1 e2 e3 e4 e5 ⊢
+    by_cases hce : c.isEmpty = true
+    · simp only [hce, if_true]
+      have hc0 : c = [] := List.isEmpty_iff.mp hce
+      have habs : abs r = [] := by
+        rw [hc0] at e1
+        have h := congrArg List.length e1
+        rw [List.length_take] at h
+        simp only [List.length_nil] at h
+        have : (abs r).length = 0 := by omega
+        exact List.length_eq_zero_iff.mp this
+      refine ⟨by rw [habs]; simp, by rw [e2, habs]; simp, e3, e4, e5⟩
+    · have hce' : c.isEmpty = false := by simpa using hce
+      simp only [hce', Bool.false_eq_true, if_false]
+      have hcle : c.length ≤ (abs r).length := by rw [e1, List.length_take]; omega
+      have hcl : 0 < c.length := by
+        cases c with
+        | nil => simp at hce
+        | cons _ _ => simp
+      have hlen1 : (abs r1).length = (abs r).length - c.length := by
+        rw [e2, List.length_drop, e1, List.length_take]; omega
+      obtain ⟨f1, f2, f3, f4, f5⟩ := ih r1 (acc ++ c) e3 e4 (by omega)
+      refine ⟨?_, f2, f3, f4, f5.trans e5⟩
+      rw [f1, e2, e1, List.append_assoc, List.take_append_drop]
+
+/-- **`pipe()`** hands out exactly what is still to come and leaves the reader at its end -/
+theorem pipe_refines (r : R σ) (hinv : Inv r) (hpl : r.pos ≤ r.len) :
+    (pipe r).1 = abs r ∧ abs (pipe r).2 = [] ∧ Inv (pipe r).2 ∧ (pipe r).2.pos ≤ (pipe r).2.len := by
+  have hb : (abs r).length < Source.bound r.src + r.buf.length + 3 := by
+    rw [abs_eq r hinv hpl, List.length_append, List.length_drop]
+    have := avail_length_le r
+    omega
+  obtain ⟨a, b, c, d, _⟩ := pipeLoop_refines _ r [] hinv hpl hb
+  unfold pipe
+  exact ⟨by rw [a]; simp, b, c, d⟩
+
+/-- **`exhaust()`** leaves nothing to read -/
+theorem exhaust_refines (r : R σ) (hinv : Inv r) (hpl : r.pos ≤ r.len) :
+    abs (exhaust r) = [] ∧ Inv (exhaust r) ∧ (exhaust r).pos ≤ (exhaust r).len :=
+  (pipe_refines r hinv hpl).2
+end Rd
+
+namespace Rd
+variable {σ : Type} [Source σ] [LawfulSource σ]
+
+theorem stopAt_big (d A : Bytes) (n : Nat) (hd : d ≠ []) (hn : A.length ≤ n) : stopAt d A n = stopAt d A A.length := by
+  unfold stopAt
+  rcases firstOcc_spec d A hd with ⟨h, _⟩ | ⟨p, h, ho, _⟩
+  · simp only [h, Option.getD_none]; omega
+  · have := occ_lt_length d A p hd ho
+    simp only [h, Option.getD_some]; omega
+
+theorem stopAt_normalize (r : R σ) (d : Bytes) (size : Option Int) (hinv : Inv r) (hpl : r.pos ≤ r.len) (hd : d ≠ [])
+    (hs : ∀ s, size = some s → s = -1 ∨ 0 ≤ s) :
+    stopAt d (abs r) (normalizeSize r size).toNat = stopAt d (abs r) (want (abs r) size) := by
+  have hl := abs_length_le r hinv hpl
+  have hnn : (0 : Int) ≤ r.rem + r.len - r.pos := by have := hinv.rem_nonneg; omega
+  unfold normalizeSize want
+  cases size with
+  | none => simp only; exact stopAt_big d _ _ hd (by omega)
+  | some s =>
+    simp only
+    by_cases h1 : s = -1
+    · simp only [h1, beq_self_eq_true, Bool.true_or, if_true]
+      exact stopAt_big d _ _ hd (by omega)
+    · have hs0 : 0 ≤ s := by rcases hs s rfl with h | h; exact absurd h h1; exact h
+      have hb : (s == -1) = false := by simp [h1]
+      simp only [hb, Bool.false_or, h1, if_false]
+      by_cases h2 : s > r.rem + r.len - r.pos
+      · simp only [h2, decide_true, if_true]
+        rw [stopAt_big d _ _ hd (by omega), stopAt_big d _ s.toNat hd (by omega)]
+      · simp only [h2, decide_false]
+        rfl
+
+/-- **`read_until(delimiter, size)`** (delimiter not consumed; size `None`, `-1` or ≥ 0; normalised size within the
+    128-chunk join limit, i.e. the branch that does not switch to `pipe_until`) returns the text up to the first occurrence
+    of the delimiter / `size` bytes / the end, and leaves exactly the rest -/
+theorem readUntil_refines (r : R σ) (d : Bytes) (size : Option Int) (hinv : Inv r) (hpl : r.pos ≤ r.len)
+    (hs : ∀ s, size = some s → s = -1 ∨ 0 ≤ s) (hd : d ≠ []) (hdc : (d.length : Int) ≤ r.chunk)
+    (hj : normalizeSize r size ≤ maxJoin r) :
+    ∃ r', readUntil r d size false = (.ok ((abs r).take (stopAt d (abs r) (want (abs r) size))), r') ∧
+      abs r' = (abs r).drop (stopAt d (abs r) (want (abs r) size)) ∧ Inv r' ∧ r'.pos ≤ r'.len ∧ r'.chunk = r.chunk := by
+  have h0 := (take_normalize r size hinv hpl hs).1
+  obtain ⟨r', e1, e2, e3, e4, e5⟩ := readUntil'_refines r d (normalizeSize r size) hinv hpl h0 hd hdc
+  rw [stopAt_normalize r d size hinv hpl hd hs] at e1 e2
+  refine ⟨r', ?_, e2, e3, e4, e5⟩
+  unfold readUntil
+  simp only [hj, decide_true, if_true]
+  exact e1
 end Rd
